@@ -502,9 +502,8 @@ def roundtrips(trace, R, model, fs, k, res):
     # no blank-line separation: single newline, single space
     parts, exc = _call(lambda: [penman.encode(g, model=model, indent=indent, compact=compact) for g in R])
     if exc is None:
-        for sepname, sep in (('newline', '\n'), ('space', ' ')):
-            if sepname == 'space' and any(p.startswith('#') for p in parts[1:]):
-                continue   # a comment cannot follow a graph on the same line
+        for sepname, sep in (('newline', '\n'), ('space', ' '), ('nothing', '')):
+            # no separation at all: a metadata comment may directly follow the previous graph's ")"
             got, exc2 = _call(lambda: penman.loads(sep.join(parts), model=model))
             check('join_' + sepname, got, exc2)
     # dump to a simulated file object
@@ -519,6 +518,8 @@ def roundtrips(trace, R, model, fs, k, res):
                     error=digest.canon_exc(exc or exc2))
         return
     b1 = fs.durable('/sim/out1.penman')
+    # the named file already exists with other content: dump must replace it, also with zero graphs
+    fs.put('/sim/out2.penman', b'(stale / content :of (an / earlier-dump))\n', wp)
     with _Patched(fs):
         _, exc = _call(lambda: penman.dump(R, '/sim/out2.penman', model=model, indent=indent,
                                            compact=compact))
